@@ -125,6 +125,7 @@ int sim_socketpair(int fds[2]);
 bool is_sim_fd(int fd);
 size_t sim_unread(int fd);
 size_t sim_unsent_room(int fd);
+bool sim_connected(int fd);
 void sim_inject_reset(int fd);	// RST arrives on this library-side socket now
 void sim_set_sockbuf(int fd, size_t cap);
 
